@@ -1,4 +1,5 @@
-From Errdef Require Import Base.Str Base.Outcome Model.Core Model.Convert Model.Unmarshal Check.UM Check.C13 Proofs.C10Proofs.
+From Coq Require Import Sorting.Sorted.
+From Errdef Require Import Base.Str Base.StrOrd Base.Outcome Model.Core Model.Convert Model.Unmarshal Check.UM Check.C13 Proofs.C10Proofs Proofs.SortFields.
 
 Definition proj_typed (x : list (ukey * bval) * list (string * dval) * list failure * option string) := fst (fst (fst x)).
 Definition proj_unknown (x : list (ukey * bval) * list (string * dval) * list failure * option string) := snd (fst (fst x)).
@@ -33,10 +34,10 @@ Lemma unmarshal_unfold c m k t fs st cs u : exists cres,
   | UFail f => UFail f
   | UPanic w => UPanic w
   | UOk def =>
-      let x := collect_fields (map (fun nv => (fst nv, bind_field c def k (fst nv) (snd nv))) fs) in
+      let x := collect_fields (map (fun nv => (fst nv, bind_field c def k (fst nv) (snd nv))) (sort_fields fs)) in
       match proj_panic x, proj_fails x with
       | Some w, _ => UPanic w
-      | None, _ :: _ => UFail (proj_fails x)
+      | None, f :: _ => UFail [f]
       | None, [] =>
           match cres with
           | UOk cs' => UOk (RErr def m (proj_typed x) (proj_unknown x) st cs')
@@ -162,10 +163,10 @@ Lemma unmarshal_unfold2 c m k t fs st cs u : exists cres, only_internal cres /\
   | UFail f => UFail f
   | UPanic w => UPanic w
   | UOk def =>
-      let x := collect_fields (map (fun nv => (fst nv, bind_field c def k (fst nv) (snd nv))) fs) in
+      let x := collect_fields (map (fun nv => (fst nv, bind_field c def k (fst nv) (snd nv))) (sort_fields fs)) in
       match proj_panic x, proj_fails x with
       | Some w, _ => UPanic w
-      | None, _ :: _ => UFail (proj_fails x)
+      | None, f :: _ => UFail [f]
       | None, [] =>
           match cres with
           | UOk cs' => UOk (RErr def m (proj_typed x) (proj_unknown x) st cs')
@@ -193,9 +194,10 @@ Proof.
   - cbv zeta. destruct (proj_panic _); [exact I|].
     destruct (proj_fails _) as [|f0 fl] eqn:Fl.
     + destruct cres as [cs'|ff|w]; try exact I. cbn in Hc. subst ff. intros [<-|[]]. discriminate.
-    + intros Hin. rewrite <- Fl in Hin. apply collect_fails in Hin as [n Hin].
+    + intros [<-|[]]. assert (Hin : In f0 (proj_fails (collect_fields (map (fun nv => (fst nv, bind_field c def k (fst nv) (snd nv))) (sort_fields fs))))) by (rewrite Fl; now left).
+      apply collect_fails in Hin as [n Hin].
       apply in_map_iff in Hin as [nv [E _]]. inversion E; subst.
-      apply (bind_no_field_failure_lenient c def k (fst nv) (snd nv) f Hs) in H1. rewrite H1. discriminate.
+      apply (bind_no_field_failure_lenient c def k (fst nv) (snd nv) f0 Hs) in H1. rewrite H1. discriminate.
   - unfold resolve_kind_u in R. destruct (u_default c); rewrite ?Hs in R;
       destruct (resolve_kind_def (u_defs c) k); inversion R; subst; intros [<-|[]]; discriminate.
 Qed.
@@ -211,37 +213,79 @@ Proof.
   intros Hs R E Hin Hr Hp. destruct (unmarshal_unfold2 c m k t fs st cs u) as [cres [Hc E2]]. rewrite E2, R in E.
   cbv zeta in E. destruct (proj_panic _); [discriminate|]. destruct (proj_fails _); [|discriminate].
   destruct cres as [cs'|ff|w]; try discriminate. inversion E; subst e; clear E. cbn [r_unknown].
-  assert (U : In (n, v) (proj_unknown (collect_fields (map (fun nv => (fst nv, bind_field c def k (fst nv) (snd nv))) fs)))).
-  { apply collect_unknown. apply in_map_iff. exists (n, v). split; [|exact Hin]. cbn.
+  assert (U : In (n, v) (proj_unknown (collect_fields (map (fun nv => (fst nv, bind_field c def k (fst nv) (snd nv))) (sort_fields fs))))).
+  { apply collect_unknown. apply in_map_iff. exists (n, v). split; [|now apply sort_fields_in]. cbn.
     rewrite (bind_unregistered c def k n v Hr Hp), Hs. reflexivity. }
   split; [exact U|]. split.
   - unfold rf_get. cbn [r_unknown].
     destruct (find (fun nv => str_eqb (fst nv) n) _) eqn:F; [discriminate|].
     eapply find_none in F; [|exact U]. cbn in F. rewrite str_eqb_refl in F. discriminate.
   - unfold rf_find_keys. cbn [r_unknown]. apply in_or_app. right.
-    assert (X : existsb (fun nv : string * dval => str_eqb (fst nv) n) (proj_unknown (collect_fields (map (fun nv => (fst nv, bind_field c def k (fst nv) (snd nv))) fs))) = true).
+    assert (X : existsb (fun nv : string * dval => str_eqb (fst nv) n) (proj_unknown (collect_fields (map (fun nv => (fst nv, bind_field c def k (fst nv) (snd nv))) (sort_fields fs)))) = true).
     { apply existsb_exists. exists (n, v). split; [exact U|apply str_eqb_refl]. }
     rewrite X. now left.
 Qed.
 
+(* the failures collected from a list of field results: the head is the first failing field *)
+Lemma proj_fails_cons nr rest :
+  proj_fails (collect_fields (nr :: rest)) =
+  match snd nr with FFail f => f :: proj_fails (collect_fields rest) | _ => proj_fails (collect_fields rest) end.
+Proof.
+  destruct nr as [n r]. cbn [collect_fields]. destruct (collect_fields rest) as [[[ty un] fl] pn].
+  unfold proj_fails. destruct r; reflexivity.
+Qed.
+
+(* in a name-sorted field list the first failure belongs to a field at or before any failing field *)
+Lemma first_failure_sorted (g : string * dval -> string * fres) L :
+  StronglySorted name_le L -> forall x fx, In x L -> snd (g x) = FFail fx ->
+  exists f rest y, proj_fails (collect_fields (map g L)) = f :: rest /\
+                   In y L /\ String.leb (fst y) (fst x) = true /\ snd (g y) = FFail f.
+Proof.
+  induction 1 as [|a L S IH Ha]; intros x fx Hin Hx; [destruct Hin|].
+  cbn [map]. rewrite proj_fails_cons. destruct (snd (g a)) eqn:Ga.
+  1,2,4: destruct Hin as [<-|Hin]; [congruence|];
+         destruct (IH x fx Hin Hx) as [f [rest [y [E [Hy [Hle Hg]]]]]]; exists f, rest, y; repeat split; auto; now right.
+  exists f, (proj_fails (collect_fields (map g L))), a. repeat split; [now left| |exact Ga].
+  destruct Hin as [<-|Hin]; [apply leb_refl|]. rewrite Forall_forall in Ha. now apply Ha.
+Qed.
+
 (* strict mode: a field neither defined on the resolved definition nor registered makes
-   the call fail, and the failures include ErrUnknownField with that name and kind *)
+   the call fail; the failure returned is ErrUnknownField with that name and kind unless
+   a field at or before it in name order fails first (as of the fix for F12 the fields are
+   visited in name order and the first failure returns) *)
 Theorem strict_unknown_field c m k t fs st cs u def n v :
   u_strict c = true -> resolve_kind_u c k = UOk def ->
   In (n, v) fs -> registered c def n = false -> is_placeholder v = false ->
-  exists ffs, unmarshal c (DD m k t fs st cs u) = UFail ffs /\
-              In {| fl_class := cls_field; fl_kind := k; fl_field := n |} ffs.
+  exists f n' v', unmarshal c (DD m k t fs st cs u) = UFail [f] /\
+    In (n', v') fs /\ String.leb n' n = true /\ bind_field c def k n' v' = FFail f.
 Proof.
   intros Hs R Hin Hr Hp. destruct (unmarshal_unfold2 c m k t fs st cs u) as [cres [Hc ->]]. rewrite R. cbv zeta.
-  assert (G := collect_good (map (fun nv => (fst nv, bind_field c def k (fst nv) (snd nv))) fs)).
-  assert (F : In {| fl_class := cls_field; fl_kind := k; fl_field := n |}
-                 (proj_fails (collect_fields (map (fun nv => (fst nv, bind_field c def k (fst nv) (snd nv))) fs)))).
-  { apply collect_fails. exists n. apply in_map_iff. exists (n, v). split; [|exact Hin]. cbn.
-    rewrite (bind_unregistered c def k n v Hr Hp), Hs. reflexivity. }
-  destruct (collect_fields _) as [[[ty un] fl] pn]. unfold proj_panic, proj_fails in *. cbn [fst snd] in *.
+  set (g := fun nv : string * dval => (fst nv, bind_field c def k (fst nv) (snd nv))).
+  assert (G := collect_good (map g (sort_fields fs))).
+  destruct (first_failure_sorted g (sort_fields fs) (sort_fields_sorted fs) (n, v)
+              {| fl_class := cls_field; fl_kind := k; fl_field := n |})
+    as [f [rest [[n' v'] [E [Hy [Hle Hg]]]]]].
+  { now apply sort_fields_in. }
+  { unfold g. cbn. rewrite (bind_unregistered c def k n v Hr Hp), Hs. reflexivity. }
+  destruct (collect_fields (map g (sort_fields fs))) as [[[ty un] fl] pn]. unfold proj_panic, proj_fails in *. cbn [fst snd] in *.
   destruct G as [-> _].
-  { apply Forall_forall. intros [n0 r] H0. apply in_map_iff in H0 as [nv [E _]]. inversion E; subst. apply bind_field_good. }
-  destruct fl as [|f0 fl']; [contradiction|]. eexists. split; [reflexivity|exact F].
+  { apply Forall_forall. intros [n0 r] H0. apply in_map_iff in H0 as [nv [E0 _]]. inversion E0; subst. apply bind_field_good. }
+  subst fl. exists f, n', v'. repeat split; [now apply sort_fields_in|exact Hle|exact Hg].
+Qed.
+
+(* ... exactly ErrUnknownField with that name and kind when no field of another name fails *)
+Corollary strict_unknown_field_alone c m k t fs st cs u def n v :
+  u_strict c = true -> resolve_kind_u c k = UOk def ->
+  In (n, v) fs -> registered c def n = false -> is_placeholder v = false ->
+  (forall n' v' f', In (n', v') fs -> bind_field c def k n' v' = FFail f' -> n' = n) ->
+  unmarshal c (DD m k t fs st cs u) = UFail [{| fl_class := cls_field; fl_kind := k; fl_field := n |}].
+Proof.
+  intros Hs R Hin Hr Hp Hothers.
+  destruct (strict_unknown_field c m k t fs st cs u def n v Hs R Hin Hr Hp) as [f [n' [v' [E [Hy [_ Hg]]]]]].
+  rewrite E. assert (n' = n) by exact (Hothers n' v' f Hy Hg). subst n'.
+  destruct (is_placeholder v') eqn:Hp'.
+  - unfold bind_field in Hg. rewrite Hp' in Hg. discriminate.
+  - rewrite (bind_unregistered c def k n v' Hr Hp'), Hs in Hg. now inversion Hg.
 Qed.
 
 (* strict mode: a successful result has no unknown fields other than redaction placeholders *)
